@@ -141,6 +141,7 @@ func init() {
 		ruleByteRune(c, r, c.anchored("C06"))
 		ruleCacheKey(c, r)
 		ruleAnchorGroup(c, r)
+		ruleRegexpEscapeState(c, r)
 	})
 	register("C07", func(c *Ctx, r *Report) {
 		r.Decides("every checker the property names is reachable from Validate through static calls; no validator loop silently skips an iteration; string lengths in characters; no sign-changing conversions in the validators.",
